@@ -253,7 +253,7 @@ def summarise(ctx, b, flavour, inline=()):
     k = K(res, b, ctx, ev)
     items = Items()
     removed_blocks = set()
-    def project(fs):
+    def project(fs, _depth=0):
         """single-thread projection of a fact set -> (canonical guard strings, infeasible).  A CAS whose expected value was just loaded from the
         word it targets cannot fail (retry loops); any other CAS is a conditional store: success <=> word == expected.  Positive comparisons
         with REMOVED do not happen."""
@@ -296,6 +296,40 @@ def summarise(ctx, b, flavour, inline=()):
                 continue    # Ok <=> the value fits the target type: carried by the two comparisons (Err is expanded into its two cases by dnf.guard_dnf_pairs)
             if f[0] == "discr" and tag(f[1]) == "variant":
                 continue    # the discriminant of a literal Some(..) / None says nothing
+            if f[0] == "discr" and tag(f[1]) == "phi" and len(f[1]) > 4 and f[1][4] and all(o is not None for o in f[1][4]) and _depth < 2:
+                # an Option joined in this frame from literals and checked sums (`(a - b).checked_add(c)?.checked_add(d)` in a helper): on one thread, over the
+                # integers, every sum is Some and the edges that bring None behind a failed sum do not exist - the test is decided by the edges that are left
+                ph = f[1]
+                try:
+                    jb_ = int(str(ph[1][-1]).split("@")[-1])
+                except ValueError:
+                    jb_ = None
+                vals = set()
+                if jb_ is not None and str(ph[1][-1]).startswith("%s@" % b.name):
+                    for alt_, o_ in zip(ph[3], ph[4]):
+                        _, inf_ = project(implied_facts(ev.guards_edge(res, o_, jb_)), _depth + 1)
+                        if inf_:
+                            continue
+                        if tag(alt_) == "variant":
+                            d_ = ev._variant_discr(alt_[1], alt_[2])
+                            if d_ is None:
+                                vals = None
+                                break
+                            vals.add(d_)
+                        elif tag(alt_) == "call" and isinstance(alt_[1], str) and alt_[1].endswith("checked_add"):
+                            vals.add(1)
+                        else:
+                            vals = None
+                            break
+                else:
+                    vals = None
+                if vals:
+                    sat_ = [D._rel_sat(f[2], v_) for v_ in vals]
+                    if all(sat_):
+                        continue
+                    if not any(sat_):
+                        infeasible = True
+                        continue
             if f[0] == "discr" and tag(f[1]) == "filter":
                 opt, pv = f[1][1], f[1][2]
                 if f[2] in (("eq", 0), ("ne", (1,))) and tag(opt) == "call" and isinstance(opt[1], str) and opt[1].endswith("checked_add"):
